@@ -50,6 +50,12 @@ type c01Ver struct {
 	// Neutral, when set, returns the variant of this version used to steer away from a known
 	// finding (see c01SigTierStale).
 	Neutral func() c01Ver
+	// Profiles is the ordered ProfileIDs list of an endpoint version; Reorder returns the same
+	// endpoint value with only that list replaced (used for the "reorder ProfileIDs only" move).
+	Profiles []string
+	Reorder  func(profiles []string) c01Ver
+	// Labels: the endpoint's own labels / a profile's labelsToApply (for class accounting only).
+	Labels map[string]string
 }
 
 type c01Slot struct {
@@ -74,7 +80,11 @@ type c01Universe struct {
 	// PreferVXLAN biases pools towards VXLAN modes and nodes towards having a BGP IPv4 address, so
 	// that VTEPs and routes that need them coexist often ("vxlan" focus).
 	PreferVXLAN bool
-	Steered        map[string]bool // signature -> steering actually changed a drawn value in this case
+	// Reorder scenario: profiles p1 and p2 apply conflicting values for label ReorderKey, the slots
+	// wep/l1 and hep/lh1 list both, and policy/g1's selector usually tests that label.
+	ReorderOn                        bool
+	ReorderKey, ReorderV1, ReorderV2 string
+	Steered                          map[string]bool // signature -> steering actually changed a drawn value in this case
 }
 
 // c01SigBlockStale: L3RouteResolver does not recompute routes nested inside an IPAM block when
@@ -165,6 +175,35 @@ func c01CloneMap(m map[string]string) map[string]string {
 	out := make(map[string]string, len(m))
 	for k, v := range m {
 		out[k] = v
+	}
+	return out
+}
+
+// Selectors of the grammar that tell the two conflicting values of each reorder key apart.
+var c01ReorderChoices = []struct {
+	Key, V1, V2 string
+	Sels        []string
+}{
+	{"a", "x", "y", []string{"a == 'x'", "a == 'y'", "a != 'x'", "(a == 'x') && (has(a))", "!(a == 'y')"}},
+	{"b", "x", "y", []string{"b == 'x'", "!(b == 'x')", "a == 'x' && b == 'x'"}},
+	{"role", "z", "x", []string{"role not in {'z'}", "!(role not in {'z'})", "(has(role)) && (role not in {'z'})"}},
+	{"pcol", "blue", "red", []string{"pcol == 'blue'", "!(pcol == 'blue')"}},
+}
+
+func (u *c01Universe) reorderEndpoint(label string) bool {
+	return u.ReorderOn && (strings.HasPrefix(label, "wep/l1.") || strings.HasPrefix(label, "hep/lh1."))
+}
+
+// reorderProfiles forces p1 and p2 (in a drawn relative order) to the front of the list.
+func (u *c01Universe) reorderProfiles(t *rapid.T, label string, profiles []string, max int) []string {
+	out := []string{"p1", "p2"}
+	if rapid.Bool().Draw(t, label+".p2first") {
+		out = []string{"p2", "p1"}
+	}
+	for _, p := range profiles {
+		if p != "p1" && p != "p2" && len(out) < max {
+			out = append(out, p)
+		}
 	}
 	return out
 }
@@ -265,16 +304,16 @@ func c01MkPorts(specs []c01PortSpec) []model.EndpointPort {
 // ---- rules ----------------------------------------------------------------------------------
 
 type c01RuleSpec struct {
-	Action                                                     string
-	Proto                                                      string // "", tcp, udp, icmp, sctp
-	IPVersion                                                  int    // 0 = unset
-	SrcSel, DstSel, NotSrcSel, NotDstSel                       string
-	SrcNets, DstNets, NotSrcNets, NotDstNets                   []string
-	SrcNet                                                     string
-	DstPorts, SrcPorts, NotDstPorts                            []string // "80", "80:81", "http"
-	ICMPType                                                   int      // -1 unset
-	OrigSrcSel                                                 string
-	Invalid                                                    bool
+	Action                                   string
+	Proto                                    string // "", tcp, udp, icmp, sctp
+	IPVersion                                int    // 0 = unset
+	SrcSel, DstSel, NotSrcSel, NotDstSel     string
+	SrcNets, DstNets, NotSrcNets, NotDstNets []string
+	SrcNet                                   string
+	DstPorts, SrcPorts, NotDstPorts          []string // "80", "80:81", "http"
+	ICMPType                                 int      // -1 unset
+	OrigSrcSel                               string
+	Invalid                                  bool
 }
 
 func (r c01RuleSpec) String() string {
@@ -514,29 +553,46 @@ func c01GenWEP(ifacePrefix string, local bool) func(t *rapid.T, u *c01Universe, 
 				invalid = true
 			}
 		}
-		withMAC := rapid.Bool().Draw(t, label+".mac")
-		desc := fmt.Sprintf("WEP{name=%q profiles=%v v4=%v v6=%v labels=%s ports=%v spoof=%v mac=%v}",
-			name, profiles, v4, v6, c01LabelsDesc(labels), ports, spoof, withMAC)
-		return c01Ver{Desc: desc, Invalid: invalid, Mk: func() any {
-			w := &model.WorkloadEndpoint{
-				State:                      "active",
-				Name:                       name,
-				ProfileIDs:                 append([]string(nil), profiles...),
-				IPv4Nets:                   c01Nets(v4, "/32"),
-				IPv6Nets:                   c01Nets(v6, "/128"),
-				Labels:                     uniquelabels.Make(c01CloneMap(labels)),
-				Ports:                      c01MkPorts(ports),
-				AllowSpoofedSourcePrefixes: c01Nets(spoof, ""),
-			}
-			if withMAC {
-				var mac calinet.MAC
-				if err := mac.UnmarshalJSON([]byte(`"01:02:03:04:05:06"`)); err != nil {
-					panic("HARNESS-GAP: mac parse: " + err.Error())
+		if u.reorderEndpoint(label) {
+			profiles = u.reorderProfiles(t, label, profiles, 3)
+			delete(labels, u.ReorderKey)
+			name, spoof, invalid = ifacePrefix, nil, false
+			var good []c01PortSpec
+			for _, p := range ports {
+				if !p.BadProto {
+					good = append(good, p)
 				}
-				w.Mac = &mac
 			}
-			return w
-		}}
+			ports = good
+		}
+		withMAC := rapid.Bool().Draw(t, label+".mac")
+		var mk func(profiles []string) c01Ver
+		mk = func(profiles []string) c01Ver {
+			profiles = append([]string(nil), profiles...)
+			desc := fmt.Sprintf("WEP{name=%q profiles=%v v4=%v v6=%v labels=%s ports=%v spoof=%v mac=%v}",
+				name, profiles, v4, v6, c01LabelsDesc(labels), ports, spoof, withMAC)
+			return c01Ver{Desc: desc, Invalid: invalid, Profiles: profiles, Labels: labels, Reorder: mk, Mk: func() any {
+				w := &model.WorkloadEndpoint{
+					State:                      "active",
+					Name:                       name,
+					ProfileIDs:                 append([]string(nil), profiles...),
+					IPv4Nets:                   c01Nets(v4, "/32"),
+					IPv6Nets:                   c01Nets(v6, "/128"),
+					Labels:                     uniquelabels.Make(c01CloneMap(labels)),
+					Ports:                      c01MkPorts(ports),
+					AllowSpoofedSourcePrefixes: c01Nets(spoof, ""),
+				}
+				if withMAC {
+					var mac calinet.MAC
+					if err := mac.UnmarshalJSON([]byte(`"01:02:03:04:05:06"`)); err != nil {
+						panic("HARNESS-GAP: mac parse: " + err.Error())
+					}
+					w.Mac = &mac
+				}
+				return w
+			}}
+		}
+		return mk(profiles)
 	}
 }
 
@@ -551,17 +607,37 @@ func c01GenHEP(t *rapid.T, u *c01Universe, label string) c01Ver {
 		name = "bad iface name!"
 		invalid = true
 	}
-	desc := fmt.Sprintf("HEP{name=%q profiles=%v v4=%v v6=%v labels=%s ports=%v}", name, profiles, v4, v6, c01LabelsDesc(labels), ports)
-	return c01Ver{Desc: desc, Invalid: invalid, Mk: func() any {
-		return &model.HostEndpoint{
-			Name:              name,
-			ProfileIDs:        append([]string(nil), profiles...),
-			ExpectedIPv4Addrs: c01IPs(v4),
-			ExpectedIPv6Addrs: c01IPs(v6),
-			Labels:            uniquelabels.Make(c01CloneMap(labels)),
-			Ports:             c01MkPorts(ports),
+	if u.reorderEndpoint(label) {
+		profiles = u.reorderProfiles(t, label, profiles, 3)
+		delete(labels, u.ReorderKey)
+		if name == "bad iface name!" {
+			name = "eth0"
 		}
-	}}
+		invalid = false
+		var good []c01PortSpec
+		for _, p := range ports {
+			if !p.BadProto {
+				good = append(good, p)
+			}
+		}
+		ports = good
+	}
+	var mk func(profiles []string) c01Ver
+	mk = func(profiles []string) c01Ver {
+		profiles = append([]string(nil), profiles...)
+		desc := fmt.Sprintf("HEP{name=%q profiles=%v v4=%v v6=%v labels=%s ports=%v}", name, profiles, v4, v6, c01LabelsDesc(labels), ports)
+		return c01Ver{Desc: desc, Invalid: invalid, Profiles: profiles, Labels: labels, Reorder: mk, Mk: func() any {
+			return &model.HostEndpoint{
+				Name:              name,
+				ProfileIDs:        append([]string(nil), profiles...),
+				ExpectedIPv4Addrs: c01IPs(v4),
+				ExpectedIPv6Addrs: c01IPs(v6),
+				Labels:            uniquelabels.Make(c01CloneMap(labels)),
+				Ports:             c01MkPorts(ports),
+			}
+		}}
+	}
+	return mk(profiles)
 }
 
 func c01GenProfileRules(t *rapid.T, u *c01Universe, label string) c01Ver {
@@ -587,8 +663,14 @@ func c01GenProfileLabels(name string) func(t *rapid.T, u *c01Universe, label str
 			labels["bad key!"] = "v"
 			invalid = true
 		}
+		if u.ReorderOn && (name == "p1" || name == "p2") {
+			// Conflicting values for the same key in p1 and p2.
+			labels[u.ReorderKey] = map[string]string{"p1": u.ReorderV1, "p2": u.ReorderV2}[name]
+			delete(labels, "bad key!")
+			invalid = false
+		}
 		desc := fmt.Sprintf("Profile{labelsToApply=%s}", c01LabelsDesc(labels))
-		return c01Ver{Desc: desc, Invalid: invalid, Mk: func() any {
+		return c01Ver{Desc: desc, Invalid: invalid, Labels: labels, Mk: func() any {
 			return &v3.Profile{
 				TypeMeta:   metav1.TypeMeta{Kind: v3.KindProfile, APIVersion: v3.GroupVersionCurrent},
 				ObjectMeta: metav1.ObjectMeta{Name: name},
@@ -627,6 +709,14 @@ func c01GenPolicy(kind, namespace string) func(t *rapid.T, u *c01Universe, label
 		orderIdx := rapid.IntRange(0, 4).Draw(t, label+".order")
 		orders := []float64{0, 1, 2, 2, 3}
 		sel := c01Selector(t, label+".selector")
+		reorderPolicy := u.ReorderOn && strings.HasPrefix(label, "policy/g1.") && rapid.IntRange(0, 3).Draw(t, label+".reorderSel") > 0
+		if reorderPolicy {
+			for _, ch := range c01ReorderChoices {
+				if ch.Key == u.ReorderKey {
+					sel = rapid.SampledFrom(ch.Sels).Draw(t, label+".reorderSelector")
+				}
+			}
+		}
 		in, inv1 := c01Rules(t, label+".in", 2, true)
 		out, inv2 := c01Rules(t, label+".out", 2, true)
 		invalid := inv1 || inv2
